@@ -276,6 +276,8 @@ pub struct Checked {
 
 /// All C13 rules on one parsed document.
 pub fn check_doc(doc: &Doc, text: &str, v: &J) -> Checked {
+    let _active = monitor::watch::guard();
+    monitor::watch::set_context(|| format!("document {}", text.chars().take(400).collect::<String>()));
     let mut w = Walk { text, findings: vec![], harness_fault: None, numbers: [0; 3], nodes: 0 };
     w.node(doc, v, "");
     let mut findings = w.findings;
